@@ -155,6 +155,9 @@ func (e Engine) Pool() []Op {
 	for _, o := range generateOps() {
 		add(o)
 	}
+	for _, o := range nameOps() {
+		add(o)
+	}
 	// a schedule may run the cheaper "spec" stage of any specification operation: close the pool under that
 	for _, o := range append([]Op(nil), pool...) {
 		if o.Kind == "spec_lalr" || o.Kind == "spec_dfa" {
@@ -209,6 +212,30 @@ func generateOps() []Op {
 	return out
 }
 
+// nameOps are specifications whose rule names coincide with words an implementation is likely to
+// use internally (the names of punctuation marks, the shape of generated rule names), together
+// with specifications that make it generate rules for exactly those punctuation marks: a table of
+// names that one run edits, or a name handed out twice, shows as a different grammar in a later run.
+func nameOps() []Op {
+	var out []Op
+	names := [][2]string{{"comma", ","}, {"semi", ";"}, {"star", "*"}, {"plus", "+"}, {"dot", "."}, {"dash", "-"}, {"lparen", "("}, {"colon", ":"}, {"bar", "|"}, {"equal", "="}}
+	groups := "grammar grp;\nID = /[a-z]+/;\nstart = ID"
+	groups2 := "grammar rep;\nstart = \"a\""
+	for i, nl := range names {
+		out = append(out, Op{Kind: "spec", Text: "grammar nm;\nstart = " + nl[0] + " " + nl[0] + ";\n" + nl[0] + " = \"x\" | " + nl[0] + " \"y\";\n"})
+		if i%3 == 0 {
+			out = append(out, Op{Kind: "spec", Text: "grammar gn;\nstart = gen_" + nl[0] + "_opt gen1_opt;\ngen_" + nl[0] + "_opt = \"y\";\ngen1_opt = \"z\";\n"})
+		}
+		groups += " [ \"" + nl[1] + "\" ]"
+		groups2 += " { \"" + nl[1] + "\" } {{ \"" + nl[1] + "\" }} ( \"" + nl[1] + "\" )"
+	}
+	out = append(out,
+		Op{Kind: "spec", Text: groups + ";\n"},
+		Op{Kind: "spec", Text: groups2 + ";\n"},
+		Op{Kind: "spec", Text: "grammar mix;\nID = /[a-z]+/;\nstart = ID [ \",\" ID ] [ \";\" ] { \"*\" \"+\" } ( \".\" | \"-\" );\n"})
+	return out
+}
+
 // hotOps is a short list of representative operations per family; every element is in the pool.
 func (e Engine) hotOps(family int) []Op {
 	var out []Op
@@ -223,6 +250,9 @@ func (e Engine) hotOps(family int) []Op {
 	}
 	if family == 3 {
 		return generateOps()
+	}
+	if family == 4 {
+		return nameOps()
 	}
 	pool := e.Pool()
 	n := 0
@@ -689,7 +719,9 @@ func (e Engine) Run(t *simrt.Tape, c simrt.Case, x *simrt.Ctx) *simrt.Result {
 	pool := e.Pool()
 	logBefore := e.raceLogSize()
 	// half of the cases concentrate on one family of operations (shared state is per package)
-	switch t.Draw(5) {
+	switch t.Draw(6) {
+	case 5:
+		pool = nameOps()
 	case 0:
 		pool = filterPool(pool, "nfa", "regex_dfa")
 	case 1:
@@ -727,7 +759,7 @@ func (e Engine) Run(t *simrt.Tape, c simrt.Case, x *simrt.Ctx) *simrt.Result {
 	}
 
 	if c.Args[0] == kPairs {
-		pool = e.hotOps(t.Draw(4))
+		pool = e.hotOps(t.Draw(5))
 	}
 	switch c.Args[0] {
 	case kHistory:
